@@ -3,11 +3,13 @@ package main
 import (
 	"verif/checks/c01"
 	"verif/checks/c02"
+	"verif/checks/c06"
 	"verif/checks/c07"
 	"verif/checks/c11"
 )
 
 func init() {
+	register("C06", "model_checking", c06.Run)
 	register("C02", "exploration", c02.Run)
 	register("C07", "exploration", c07.Run)
 	register("C01", "exploration", c01.Run)
